@@ -32,7 +32,7 @@ T = {
          'trusted: reference model; bounds: quick 40..300 cycles per history, thorough up to 3000; capacities 8..256',
          'model-based stateful property testing with a structured (cycle/scheduler) generator'),
  'C07': ('asan-seq', 'exploration',
-         'Generated call sequences (in-domain histories ended by exactly one limit overrun that must panic; anything-goes sequences with tolerated panics) executed inside an AddressSanitizer build with debug assertions; thorough adds a MemorySanitizer build and a coverage-guided libFuzzer+ASan campaign on a byte-level target with the same oracle inside.',
+         'Generated call sequences (in-domain histories ended by exactly one limit overrun that must panic; anything-goes sequences with tolerated panics, incl. a group-exhaustion scenario at large ids and calls of the Hex/Label value-type API) executed inside an AddressSanitizer build with debug assertions; thorough adds a MemorySanitizer build and a coverage-guided libFuzzer+ASan campaign on a byte-level target with the same oracle inside.',
          'trusted: the sanitizers; ASan cannot see uninitialised reads (MSan stage in thorough only) nor out-of-bounds accesses that land inside another live allocation; claimed for builds with debug assertions',
          'property-based sequence generation + coverage-guided fuzzing (cargo-fuzz/libFuzzer) under ASan/MSan with the panic-contract oracle in the target'),
  'C08': ('twin', 'exploration',
@@ -48,7 +48,7 @@ T = {
          'trusted: the interpreter and, for the independence drain, the reference model',
          'differential twin stateful property testing (original vs clone), metamorphic independence check'),
  'C11': ('treegen', 'exploration',
-         'Generated pairs of trees built through the API; the result of merge() is explained path-wise as a graft by an independent walk, compared vertex by vertex with the reference model that performed the equivalent add/bind/put calls, and drained through the epilogue (data bytes, collections).',
+         'Generated pairs of trees built through the API (random shapes, wide stars, many-group chains) plus every pair of trees up to 3 (quick) / 4 (thorough) vertices enumerated; the result of merge() is explained path-wise as a graft by an independent walk, compared vertex by vertex with the reference model that performed the equivalent add/bind/put calls, and drained through the epilogue (data bytes, collections).',
          'trusted: reference model and graft() in harness/src/interp.rs; trees <= 8 vertices, labels from a pool of 4; merges that would exceed a limit are skipped and counted',
          'property-based testing over generated tree pairs; oracle = independent path-wise graft + reference model'),
  'C12': ('treegen', 'exploration',
